@@ -35,6 +35,7 @@ def run(F, R):
         R.check("C07-R1", "single-write", len(writes) == 1, "one write site", "%d write sites" % len(writes))
         bi, si, p, r = writes[0]
         vt = bv._trace_rv(r, None, 0)
+        vt = lib.inline_local_call(W, bv, vt)
         while vt[0] in ("ref", "deref"):
             vt = vt[1]
         ok = vt[0] == "call" and vt[1].endswith("Option::<T>::and_then")
@@ -72,7 +73,8 @@ def run(F, R):
     R.rule("C07-R2", "the header evaluation and the changed-test dominate the HTTP status test (not control-dependent on status or request kind)")
     for cx in ex[:1]:
         nodes = [n for n in S.nodes if n.ctx is cx and n.idx in S.live]
-        get_n = [n.idx for n in nodes if n.term["k"] == "call" and lib.callee_is(n.term, "http::HeaderMap::<T>::get")]
+        # the lookup may sit in a helper spliced below the exchange function
+        get_n = [n.idx for n in S.nodes if n.idx in S.live and smod.descends(n.ctx, cx) and n.term["k"] == "call" and lib.callee_is(n.term, "http::HeaderMap::<T>::get")]
         ne_n = [n.idx for n in nodes if n.term["k"] == "call" and n.term.get("callee") in ("std::cmp::PartialEq::ne", "std::cmp::PartialEq::eq") and FIELD in fmt_t(cx.bv.trace_op(n.term["args"][0])) + fmt_t(cx.bv.trace_op(n.term["args"][1]))]
         st_n = [n.idx for n in nodes if n.term["k"] == "call" and (lib.callee_is(n.term, "http::StatusCode::is_success") or "StatusCode" in (n.term.get("callee") or ""))]
         ver_ok = [(a, b) for (a, b, nm) in sm.outcome_edges(S, "std::ops::ControlFlow", "Continue") if S.nodes[a].ctx is cx and lib.head_call(guards.switch_info(cx.bv, S.nodes[a].bi).term) == "cup_ecdsa::Cupv2RequestHandler::verify_response"]
